@@ -516,6 +516,8 @@ package eventlogger
 
 // ---- Event format table (C14, C19) ----
 //@ type Event guarded_by l: Formatted
+//@ type Filter immutable Predicate
+//@ type JSONFormatterFilter immutable Predicate
 
 //@ func (*Event).FormattedAs(formatType, formattedValue)
 //@   requires e != nil && held(e.l) == 0
